@@ -265,6 +265,11 @@ class TestCase(unittest.TestCase):
         # __details is lazy-initialized so that a constructed-but-not-run
         # TestCase is safe to use with clone_test_with_new_id.
         self.__details = None
+        # A failed expectThat() fails the run it happened in, not later runs
+        # of this instance.
+        if getattr(self, "_TestCase__forced_by_expectation", False):
+            self.__dict__.pop("force_failure", None)
+        self.__forced_by_expectation = False
 
     def __eq__(self, other):
         eq = getattr(unittest.TestCase, "__eq__", None)
@@ -516,6 +521,9 @@ class TestCase(unittest.TestCase):
                     postfix_content="MismatchError: " + str(mismatch_error)
                 ),
             )
+            if not getattr(self, "force_failure", None):
+                # Remember that it was us, so that _reset() can undo it.
+                self.__forced_by_expectation = True
             self.force_failure = True
 
     def _matchHelper(self, matchee, matcher, message, verbose):
